@@ -56,7 +56,7 @@ def table_names(prog, names_table):
 
 def macro_value(repo, name, header='src/snoopy.h'):
     txt = open(os.path.join(repo, header)).read()
-    m = re.search(r'^\s*#\s*define\s+%s\s+(\(?-?\d+\)?)\s*$' % re.escape(name), txt, re.M)
+    m = re.search(r'^\s*#\s*define\s+%s\s+(\(?-?\d+\)?)\s*(?://.*|/\*.*?\*/\s*)?$' % re.escape(name), txt, re.M)
     if not m:
         raise AnalysisBroken('constant %s not found in %s' % (name, header))
     return int(m.group(1).strip('()'))
